@@ -24,7 +24,7 @@ DEST_KINDS = ["Destination", "CongestedDestination"]
 JUNK = ["str", 7, None, 3.5, ("t",)]
 
 
-def gen_link_spec(rng: random.Random, i: int, name, max_seg=4) -> dict:
+def gen_link_spec(rng: random.Random, i: int, name, max_seg=4, empty_vsl=True) -> dict:
     N = rng.choice([1, 1, 2, 2, 3, max_seg])
     spec = {
         "cls": "Link",
@@ -40,7 +40,7 @@ def gen_link_spec(rng: random.Random, i: int, name, max_seg=4) -> dict:
     }
     if rng.random() < 0.35:
         spec["cls"] = "LinkWithVsl"
-        k = rng.choice([0, 1, 1, N])
+        k = rng.choice([0, 1, 1, N]) if empty_vsl else rng.choice([1, 1, N])
         spec["vsl"] = sorted(rng.sample(range(N), min(k, N)))
         spec["alpha"] = round(rng.uniform(0.0, 0.3), 3)
     return spec
